@@ -157,6 +157,13 @@ def extra_scenarios(T, rnd):
         out.append((["vt", "conn", rnd.choice(("tcp", "btcp")), rnd.choice(("sequential", "happy", "happy", "single", "none")),
                      rnd.choice(("sync", "later")), loc, rnd.choice((150, 300)), 300, rnd.choice((101, 113)),
                      rnd.choice((0, 0, 0, 1)), rnd.randrange(3), ips], "c,auto"))
+    # the answer arrives in time, the application makes its next call only after dns.timeout has run out
+    for alg in ("single", "sequential", "happy"):
+        for tp in ("tcp", "btcp"):
+            for sched in ("c,r,a%d,p,auto", "c,a100,r,a%d,p,auto", "c,a300,r,a%d,auto"):
+                ips = [[rnd.choice((4, 6)), 1]] if alg == "single" else lst(rnd.choice((1, 2, 3)), 1)
+                out.append((["vt", "conn", tp, alg, "later", "none", 150, 300, 101, 0, rnd.randrange(3), ips],
+                            sched % rnd.choice((301, 350, 1000))))
     # xcm_server / xcm_server_a on a name that resolves, resolves late, fails, fails late, never answers
     for tp in ("tcp", "btcp"):
         for res in ("sync", "later", "fail", "faillater", "silent"):
